@@ -23,7 +23,7 @@ Lemma gen_dedupe_is_model : forall p t, gen_dedupe_p p = dedupe_p p /\ gen_dedup
 Proof. intros; split; reflexivity. Qed.
 Lemma gen_join_is_model : forall p1 p2 t1 t2, gen_join_p p1 p2 = join_p p1 p2 /\ gen_join_t p1 p2 t1 t2 = join_t p1 p2 t1 t2.
 Proof. intros; split; reflexivity. Qed.
-Lemma gen_carry_boundary_is_model : forall OF NF b, gen_carry_boundary OF NF b = carry_boundary OF NF b.
+Lemma gen_carry_boundary_is_model : forall nv OF NF b, gen_carry_boundary nv OF NF b = lookup_boundary nv OF NF b.
 Proof. reflexivity. Qed.
 
 Lemma gen_remap_is_model : forall canon nslots newp F F' t2f' f2t0 f npts t t',
